@@ -27,8 +27,14 @@ def run(ck, rng):
                 items.append((1, nm))
                 if not nm.endswith((b".go", b".md")) and rng.random() < 0.6:
                     items += [(2, b"k"), (2, b"f.go")]
+        long_exts = False
+        if rng.random() < 0.08:
+            # a long extension list with entries that are whole names or have several dots, and leaves that match them
+            items = [(1, b"proj"), (2, b"Makefile"), (2, b"a.tar.gz"), (2, b"src"), (3, b"main.go"), (3, b"profile"), (3, b"x.tar.gz"),
+                     (2, b"docs"), (3, b"README.md"), (1, b"GNUmakefile"), (1, b"other"), (2, b"file")]
+            long_exts = True
         flat = flat_merged(items)
-        exts = rng.choice(EXT_LISTS)
+        exts = rng.choice(EXT_LISTS) if not long_exts else EXT_LISTS[-1]
         target = rng.choice(TARGETS)
         np_ = node_paths(flat, exts)
         roots = [p for p, k, r in np_ if b"/" not in p]
